@@ -2,7 +2,7 @@
 From Coq Require Import List NArith ZArith Bool Lia.
 From Coq.Strings Require Import Byte.
 From RimeV Require Import Base.Bytes Udb.Value Udb.ValueProofs Udb.Merge Udb.MergeProofs Udb.Tsv Udb.TsvProofs
-  Udb.Manager Udb.ManagerProofs.
+  Udb.Manager Udb.ManagerProofs Udb.SyncAbstract Udb.SyncProofs.
 Import ListNotations.
 
 Definition ex_k1 : bytes := [x61; x20; x09; x41].                    (* "a <TAB>A" *)
@@ -159,3 +159,29 @@ Lemma ex_export_import_result :
   | None => False
   end.
 Proof. vm_compute. repeat split; reflexivity. Qed.
+
+(** the example world meets the hypotheses of the convergence theorem *)
+Definition ex_round1 : list (nat * list nat) := [(0, ex_all); (1, ex_all); (2, ex_all)]%nat.
+Definition ex_round2 : list (nat * list nat) := [(2, ex_all); (0, ex_all); (1, ex_all)]%nat.
+
+Lemma erased_print_clean : forall d : D erased_ops,
+  Forall (fun b => is_space b = false) (d_print erased_ops d) /\ d_parse erased_ops (d_print erased_ops d) <> None.
+Proof. intro d. split; [repeat constructor | discriminate]. Qed.
+
+Lemma ex_world_good : forall i, (i < 3)%nat -> good i (get_db ex_world i).
+Proof.
+  intros i Hi. assert (C : (i = 0 \/ i = 1 \/ i = 2)%nat) by lia.
+  destruct C as [E|[E|E]]; subst i; (split; [split; [|split; reflexivity] | reflexivity]);
+    repeat split; try reflexivity; repeat constructor; cbn; intuition discriminate.
+Qed.
+
+Lemma ex_rounds_ok : orders_ok 3 ex_round1 /\ orders_ok 3 ex_round2 /\ covers 3 ex_round1 /\ covers 3 ex_round2.
+Proof.
+  assert (A : forall j, (j < 3)%nat <-> In j ex_all) by (intro j; cbn; lia).
+  assert (Oo : forall r, (forall io, In io r -> (fst io < 3)%nat /\ snd io = ex_all) -> orders_ok 3 r).
+  { intros r H io Hin. destruct (H io Hin) as [H1 H2]. rewrite H2. split; [exact H1|]. split; intros j Hj; now apply A. }
+  split; [apply Oo; intros io [<-|[<-|[<-|[]]]]; cbn; split; (lia || reflexivity)|].
+  split; [apply Oo; intros io [<-|[<-|[<-|[]]]]; cbn; split; (lia || reflexivity)|].
+  split; intros i Hi; exists ex_all; assert (C : (i = 0 \/ i = 1 \/ i = 2)%nat) by lia;
+    destruct C as [E|[E|E]]; subst i; cbn; tauto.
+Qed.
